@@ -406,7 +406,7 @@ pub fn emit_strtab_probe<S: Sink>(s: &mut S, key: Key, st: &StringTable<'_>, dat
     }
 }
 
-pub fn emit_symtab<S: Sink, E: EndianParse>(s: &mut S, key: Key, tab: &SymbolTable<'_, E>, strs: &StringTable<'_>, datalen: usize) {
+pub fn emit_symtab<S: Sink, E: EndianParse + core::fmt::Debug>(s: &mut S, key: Key, tab: &SymbolTable<'_, E>, strs: &StringTable<'_>, datalen: usize) {
     emit_table!(s, key, tab, 24, datalen, |sink, y| { emit_sym(sink, &y) });
     let lim = tab.len().min(ENTRY_CAP);
     for i in 0..lim {
@@ -416,7 +416,7 @@ pub fn emit_symtab<S: Sink, E: EndianParse>(s: &mut S, key: Key, tab: &SymbolTab
     }
 }
 
-pub fn emit_dynamic<S: Sink, E: EndianParse>(s: &mut S, key: Key, tab: &DynamicTable<'_, E>, datalen: usize) {
+pub fn emit_dynamic<S: Sink, E: EndianParse + core::fmt::Debug>(s: &mut S, key: Key, tab: &DynamicTable<'_, E>, datalen: usize) {
     emit_table!(s, key, tab, 16, datalen, |sink, d| {
         sink.u(d.d_tag as u64);
         sink.u(d.d_val());
@@ -453,6 +453,14 @@ pub fn emit_note<S: Sink>(s: &mut S, n: &Note<'_>) {
     }
 }
 
+/// fmt::Write that discards (formatting without allocating)
+pub struct NullWriter;
+impl core::fmt::Write for NullWriter {
+    fn write_str(&mut self, _: &str) -> core::fmt::Result {
+        Ok(())
+    }
+}
+
 /// Iterator contract: `size_hint()` brackets the number of items really yielded. A wrong hint makes
 /// `collect()` and friends panic or over-allocate inside std; it is reported as the crate's panic.
 pub fn hint_ok(hint: (usize, Option<usize>), yielded: usize, what: &str) {
@@ -461,13 +469,14 @@ pub fn hint_ok(hint: (usize, Option<usize>), yielded: usize, what: &str) {
     }
 }
 
-pub fn emit_notes<S: Sink, E: EndianParse>(s: &mut S, key: Key, it: NoteIterator<'_, E>, datalen: usize) {
+pub fn emit_notes<S: Sink, E: EndianParse + core::fmt::Debug>(s: &mut S, key: Key, it: NoteIterator<'_, E>, datalen: usize) {
     s.call(key.sub(S_NOTES, 0));
     let cap = datalen + 2;
     let mut cnt = 0usize;
     let hint = it.size_hint();
     let mut ran = false;
-    for n in it {
+    let mut it = it;
+    while let Some(n) = it.next() {
         cnt += 1;
         if cnt > cap {
             s.runaway(key.sub(S_NOTES, 0));
@@ -478,12 +487,15 @@ pub fn emit_notes<S: Sink, E: EndianParse>(s: &mut S, key: Key, it: NoteIterator
     }
     if !ran {
         hint_ok(hint, cnt, "NoteIterator");
+        // Debug of the exhausted iterator, into a sink that stores nothing
+        use core::fmt::Write;
+        let _ = write!(NullWriter, "{:?}", it);
     }
     s.u(cnt as u64);
     s.done(true);
 }
 
-pub fn emit_rels<S: Sink, E: EndianParse>(s: &mut S, key: Key, it: RelIterator<'_, E>, datalen: usize) {
+pub fn emit_rels<S: Sink, E: EndianParse + core::fmt::Debug>(s: &mut S, key: Key, it: RelIterator<'_, E>, datalen: usize) {
     s.call(key.sub(S_RELS, 0));
     let cap = datalen + 2;
     let mut cnt = 0usize;
@@ -505,7 +517,7 @@ pub fn emit_rels<S: Sink, E: EndianParse>(s: &mut S, key: Key, it: RelIterator<'
     s.done(true);
 }
 
-pub fn emit_relas<S: Sink, E: EndianParse>(s: &mut S, key: Key, it: RelaIterator<'_, E>, datalen: usize) {
+pub fn emit_relas<S: Sink, E: EndianParse + core::fmt::Debug>(s: &mut S, key: Key, it: RelaIterator<'_, E>, datalen: usize) {
     s.call(key.sub(S_RELAS, 0));
     let cap = datalen + 2;
     let mut cnt = 0usize;
@@ -528,7 +540,7 @@ pub fn emit_relas<S: Sink, E: EndianParse>(s: &mut S, key: Key, it: RelaIterator
     s.done(true);
 }
 
-pub fn emit_symver<S: Sink, E: EndianParse>(s: &mut S, key: Key, t: &SymbolVersionTable<'_, E>, nsyms: usize, datalen: usize) {
+pub fn emit_symver<S: Sink, E: EndianParse + core::fmt::Debug>(s: &mut S, key: Key, t: &SymbolVersionTable<'_, E>, nsyms: usize, datalen: usize) {
     let lim = (nsyms + 2).min(ENTRY_CAP);
     let alpha = index_alphabet(nsyms, 2);
     for slot in 0..lim + alpha.len() {
@@ -592,7 +604,7 @@ pub fn emit_symver<S: Sink, E: EndianParse>(s: &mut S, key: Key, t: &SymbolVersi
 
 pub const ABSENT_NAMES: [&[u8]; 4] = [b"", b"a", b"zz_absent", b"\xff\xfe"];
 
-pub fn emit_hash_finds<S: Sink, E: EndianParse>(
+pub fn emit_hash_finds<S: Sink, E: EndianParse + core::fmt::Debug>(
     s: &mut S,
     sysv: Option<&SysVHashTable<'_, E>>,
     gnu: Option<&GnuHashTable<'_, E>>,
@@ -644,7 +656,7 @@ pub fn emit_hash_finds<S: Sink, E: EndianParse>(
     }
 }
 
-fn emit_section_views<'d, S: Sink, E: EndianParse>(s: &mut S, f: &ElfBytes<'d, E>, q: u16, a: u32, h: &SectionHeader, flen: usize) {
+fn emit_section_views<'d, S: Sink, E: EndianParse + core::fmt::Debug>(s: &mut S, f: &ElfBytes<'d, E>, q: u16, a: u32, h: &SectionHeader, flen: usize) {
     let key = Key::new(q, a);
     s.call(key.sub(S_DATA, 0));
     match f.section_data(h) {
@@ -697,7 +709,7 @@ fn emit_section_views<'d, S: Sink, E: EndianParse>(s: &mut S, f: &ElfBytes<'d, E
     }
 }
 
-fn emit_segment_views<'d, S: Sink, E: EndianParse>(s: &mut S, f: &ElfBytes<'d, E>, q: u16, a: u32, p: &ProgramHeader, flen: usize) {
+fn emit_segment_views<'d, S: Sink, E: EndianParse + core::fmt::Debug>(s: &mut S, f: &ElfBytes<'d, E>, q: u16, a: u32, p: &ProgramHeader, flen: usize) {
     let key = Key::new(q, a);
     s.call(key.sub(S_DATA, 0));
     match f.segment_data(p) {
@@ -750,7 +762,7 @@ pub struct Opts {
 }
 
 /// Run the whole slice-parser API over `data`. Returns false when opening failed.
-pub fn observe<E: EndianParse, S: Sink>(data: &[u8], s: &mut S, opts: &Opts) -> bool {
+pub fn observe<E: EndianParse + core::fmt::Debug, S: Sink>(data: &[u8], s: &mut S, opts: &Opts) -> bool {
     let flen = data.len();
     s.call(Key::new(Q_OPEN, 0));
     let f = match ElfBytes::<E>::minimal_parse(data) {
@@ -789,7 +801,7 @@ pub fn observe<E: EndianParse, S: Sink>(data: &[u8], s: &mut S, opts: &Opts) -> 
 }
 
 /// Everything after opening, on an already opened file (so that several rounds can share one object).
-pub fn observe_open<E: EndianParse, S: Sink>(f: &ElfBytes<'_, E>, data: &[u8], s: &mut S, opts: &Opts) {
+pub fn observe_open<E: EndianParse + core::fmt::Debug, S: Sink>(f: &ElfBytes<'_, E>, data: &[u8], s: &mut S, opts: &Opts) {
     let flen = data.len();
 
     // section header table
